@@ -26,7 +26,7 @@ func runC13(res *lib.Result, tier string, seed int64, args []string) error {
 	if tier == "thorough" {
 		nUnit, nE2E = 400000, 3000
 	}
-	res.Rule = "unit: random byte strings (ASCII, 2/3/4-byte sequences, stray and truncated bytes) through the real isUtf8 and getFinalStrComment vs the models; e2e: declarations (locals, globals, functions, table members) with a trailing comment or a leading comment block written in ASCII / 2-byte / 3-byte / astral scripts, hover on a use: the label must contain the identifier (and 'local' for locals, the parameter list for functions) and the documentation must be the comment verbatim; 2-byte scripts fall into class K1; non-trivial = a non-ASCII string / a hover with documentation; distinct by input"
+	res.Rule = "unit: random byte strings (ASCII, 2/3/4-byte sequences, stray and truncated bytes) through the real isUtf8 and getFinalStrComment vs the models; comment map: files generated line by line (blank, statement, statement with trailing comment, short comment, one-line / multi-line long comment, long comment before a statement) whose token gaps are known by construction: the real lexer's comment map and the real GetLineComment of every line vs the Lean model (theorems block_is_run, blocks_partition, blocks_maximal, blank_line_separates, trailing_alone); e2e: declarations (locals, globals, functions, table members) with a trailing comment or a leading comment block written in ASCII / 2-byte / 3-byte / astral scripts, hover on a use: the label must contain the identifier (and 'local' for locals, the parameter list for functions) and the documentation must be the comment verbatim; 2-byte scripts fall into class K1; non-trivial = a non-ASCII string / a hover with documentation; distinct by input"
 	drv, err := lib.StartDriver()
 	if err != nil {
 		return err
@@ -72,6 +72,14 @@ func runC13(res *lib.Result, tier string, seed int64, args []string) error {
 		if lib.Hex([]byte(ci)) != cm {
 			res.AddViolation("impl-vs-model", fmt.Sprintf("getFinalStrComment: implementation %q model %q", ci, string(lib.UnHex(cm))), lib.Hex(s), true)
 		}
+	}
+	// ---------------- comment map and GetLineComment vs the Lean model ----------------
+	nMap := 300
+	if tier == "thorough" {
+		nMap = 20000
+	}
+	if err := c13CommentMap(res, drv, root, nMap); err != nil {
+		return err
 	}
 	// ---------------- e2e hover ----------------
 	dir := lib.ScratchDir("c13")
